@@ -117,7 +117,9 @@ def HotList (s : MState) (k : Bytes) (l : LList) (now : Int) : Prop :=
   ∃ m, getMeta s k = some m ∧ m.isOk = true ∧ m.expired now = false ∧ m.value = some (.list l)
 
 theorem lockW_index (s : MState) (k : Bytes) : (lockW s k).index = s.index := by
-  unfold lockW; split <;> rfl
+  unfold lockW; split
+  · rfl
+  · split <;> rfl
 
 theorem lockR_index (s : MState) (k : Bytes) : (lockR s k).index = s.index := by
   unfold lockR; split <;> rfl
